@@ -158,6 +158,54 @@ def cannon_case(args):
     return idx, kind, pos, bit, rc, out
 
 
+def lean_damage(ctx, drv, name, src, pkg, lines, stats, pk):
+    """The real decoder refuses a damaged package exactly when the Lean decoder returns none; when both accept, the
+    re-encodings are equal (hash + length)."""
+    cases = []
+    for l in lines:
+        f = l.split(" ")
+        if f[4] not in ("ok", "err"):
+            continue
+        m = re.search(r" re=(\S+)", l)
+        cases.append((f[1], f[2], f[3], ("ok " + m.group(1)) if (f[4] == "ok" and m) else f[4]))
+    if not cases:
+        return
+    nchunks = 6
+    chunks = [cases[i::nchunks] for i in range(nchunks)]
+
+    def run_chunk(ch):
+        text = "".join("pkg %s %s %s %s\n" % (pkg, k, p, b) for (k, p, b, _) in ch)
+        rc, out, err = C.sh2([drv], stdin=text, timeout=7200)
+        return out.splitlines()
+
+    with concurrent.futures.ThreadPoolExecutor(max_workers=nchunks) as ex:
+        outs = list(ex.map(run_chunk, chunks))
+    for ch, out in zip(chunks, outs):
+        if len(out) != len(ch):
+            ctx.finding("corr:stream", dict(kind="correspondence", detail="Lean driver did not answer every damaged-package request",
+                                            package=name, n_req=len(ch), n_model=len(out)),
+                        "Lean driver did not answer every damaged-package request (%s)" % name, no_input=True)
+            continue
+        for (k, p, b, want), got in zip(ch, out):
+            stats["evaluations"] += 1
+            h = stats["hist"]
+            h["pkg_damaged"] = h.get("pkg_damaged", 0) + 1
+            stats["distinct"].add("pkgmut %s %s %s %s" % (name, k, p, b))
+            model = got.replace(" wf=true", "")
+            pk["lean_damage_compared"] = pk.get("lean_damage_compared", 0) + 1
+            if want.startswith("err"):
+                pk["lean_damage_both_refuse"] = pk.get("lean_damage_both_refuse", 0) + 1 if model == "err" else pk.get("lean_damage_both_refuse", 0)
+            if model != want or (got.startswith("ok") and "wf=true" not in got):
+                stats["disagreements"] += 1
+                ctx.finding("corr:pkg-damaged",
+                            dict(kind="correspondence", package=name, source=src, mutation=dict(kind=k, pos=int(p), bit=int(b)),
+                                 impl=want, model=got,
+                                 how_to_replay="h_c18 mutant <package> %s %s %s m; decode_program_from_bytes(m) vs drv_c18 `pkg <package> %s %s %s`"
+                                               % (k, p, b, k, p, b)),
+                            "real decoder and Lean decoder disagree on a damaged package (%s %s byte %s bit %s): impl `%s`, model `%s`"
+                            % (name, k, p, b, want, got[:80]), no_input=False)
+
+
 def pkg_leg(ctx, hbin, drv, stats, pk):
     """Real packages: round trip on the real code, both readers on every body, package build == source build,
     damaged copies through the in-process decoder and the code generator."""
@@ -219,6 +267,22 @@ def pkg_leg(ctx, hbin, drv, stats, pk):
                 stats["oracle_failures"] += 1
                 ctx.finding("oracle:body-rewrite", dict(kind="oracle", package=name, source=src, log=summ[-2000:]),
                             "function bodies of %s do not survive read -> write: %s" % (name, summ.strip()[-300:]))
+            # the Lean codec (generated type table) on the same file: decode, re-encode, compare with the real crate
+            rcL, outL, errL = C.sh2([drv], stdin="pkg %s\n" % pkg, timeout=1800)
+            got = outL.strip()
+            want = "ok %s wf=true same=true" % info.get("re", "?")
+            stats["evaluations"] += 1
+            stats["hist"]["pkg_lean_codec"] = stats["hist"].get("pkg_lean_codec", 0) + 1
+            stats["distinct"].add("pkg " + name)
+            pk["lean_codec_packages"] = pk.get("lean_codec_packages", 0) + 1
+            if got != want:
+                stats["disagreements"] += 1
+                ctx.finding("corr:pkg-lean-codec",
+                            dict(kind="correspondence", package=name, source=src, model=got[:300], impl=want, stderr=errL[-500:]),
+                            "the Lean package codec does not reproduce the real crate on package %s: model `%s`, expected `%s`"
+                            % (name, got[:120], want), no_input=False)
+            else:
+                pk["lean_codec_identical"] = pk.get("lean_codec_identical", 0) + 1
             reqs = [l for l in rd_reqs.splitlines() if l.startswith("rd ")]
             pk["bodies_read_by_both"] += len(reqs)
             if reqs:
@@ -292,6 +356,7 @@ def pkg_leg(ctx, hbin, drv, stats, pk):
                 start = int(last[0]) + 1
                 if aborts > 20:
                     break
+            lean_damage(ctx, drv, name, src, pkg, lines, stats, pk)
             ok_cases = []
             for l in lines:
                 f = l.split(" ")
